@@ -142,6 +142,9 @@ def explore(chk, rnd, tier):
             if rnd.random() < 0.5:
                 sel = rnd.choice(["grid", "rows", "items", "users[each].tags", "users.tags"]) + \
                     "[" + ("keep=>" if rnd.random() < 0.3 else "") + ":".join(gen_dim_hist(rnd) for _ in range(rnd.randint(1, 2))) + "]"
+            if rnd.random() < 0.1:
+                # a valid head followed by a `::` segment the parser rejects: nothing of the failed parse may be kept
+                sel = sel + "::" + rnd.choice(["[first]", "[(1:2:3)]", "[(a:b)]", "[x", "{k|}"])
             if rnd.random() < 0.35:
                 # invalid texts too: a failed parse must fail again on every later evaluation
                 sel = mutate(rnd, sel) if rnd.random() < 0.8 else random_string(rnd)
